@@ -27,6 +27,22 @@ summaries    : the expected rendering of a statistics summary depends on the cou
                equally named tests that are different tests, all results in one task's list, two selected labels, tests
                carrying only part of the selected labels; a summary by labels may have no row at all (TLC enumerates it).
                Keys say which: /repeated-names, /same-name-other-test, /one-task, /zero-rows, /two-labels, /partial-labels.
+names/orders : the expected rendering does not depend on what the named things of a result are called nor on the order in
+               which they were given: one case in four (quick) of every pattern is also presented with its datasets /
+               metadata samples and keys / tasks / tests / labels and label values called by names whose insertion order is
+               not the alphabetical one ('run9' before 'run10' -- string order differs from numeric order --, 'tripoli' /
+               'mcnp' / 'serpent', the plain names in descending order), the items of a summary listed in another order
+               (key suffix /order-<which>).  The read-back is judged column-wise too: a column of a per-bin table whose
+               header names one dataset shows, of the values and errors of the row's bin, only that dataset's
+               (Render!DsCellsOK); a column of a per-key / per-label table headed by the name of a sample / label shows the
+               value of that sample / label for the row's key / label row (Render!NamedCellsOK); both are part of rowsOK,
+               i.e. of the clauses BinRows / ItemRows.  Which cells of a metadata row are marked is not in the statement
+               (rows are): a mark under the header of a sample that agrees with the reference is reported as DRIFT.
+table ops of : one case in eight (quick) has the tables its representer produced joined with themselves, joined with the
+representer    table the same representer produced for another result of the same kind (same headers, another failing
+tables         pattern / number of rows), sliced, joined then sliced, on the real TableTemplates; the text of the final table
+               is read back and TLC (TableOpsTrace.tla) compares it with what TableOps.tla computes from the formatted
+               inputs (keys C12/table-ops/<kind>/<operations>-<operand>/<why>).
 """
 import io
 import json
@@ -1069,7 +1085,7 @@ def check_representer_table_ops(ctx, cases, table_ops, wd, tag):
         case, partner, k, who, j1, j2, ops, tobs = meta[cid - 1]
         if len(ops) > 1 and (json.dumps(case, sort_keys=True), k, who, opname(ops[:-1])) in failing:
             continue                       # blame the shortest failing prefix only
-        ctx.violation('C12/table-ops/%s/%s%s/%s%s' % (case['kind'], opname(ops), '' if who == '-' else '-' + who, why, _lay_suffix(case)),
+        ctx.violation('C12/table-ops/%s/%s%s/%s' % (case['kind'], opname(ops), '' if who == '-' else '-' + who, why),
                       'table %d of the rendering, after %s (operand: %s), does not read back as what TableOps.tla computes from the '
                       'formatted inputs (%s %s): table %s, operand %s, read back %s'
                       % (k, ops, who, why, tobs.get('why', ''), json.dumps(j1)[:300], json.dumps(j2)[:200], json.dumps(tobs['rows'])[:300]),
@@ -1292,7 +1308,11 @@ def run_c12(ctx):
              'strided slice, integer dtype; per dataset or all alike), in rotation; statistics summaries are repeated '
              'with the same counts and their items named alike within / across the classes, equally named but different '
              'tests, all results in one task, two selected labels, tests carrying only part of the selected labels (by '
-             'labels: also no row at all), in rotation.  distinct_nontrivial = '
+             'labels: also no row at all), in rotation; one case in four (quick) / two of every pattern is repeated with its '
+             'datasets / samples / keys / tasks / tests / labels named and inserted in an order that is not the alphabetical '
+             'one (and not the numeric one), columns headed by such a name are judged cell by cell; one case in eight / three '
+             'has the tables of its representer joined (with themselves, with the table of another result) and sliced, '
+             'judged by TableOpsTrace.tla.  distinct_nontrivial = '
              'distinct inputs whose rendering carries a mark or a table (or raises) + distinct random operation '
              'sequences (+ 1 in 499 of the enumerated ones).')
     ctx.assume('marks shown for the Student test underlying a Bonferroni / Holm result are attributed to that Student '
@@ -1393,7 +1413,8 @@ def run_c12(ctx):
                              of_which_layout_variants=[len(lays), len(rnd_lays)],
                              of_which_statistics_variants=[len(svars), len(rnd_svars)],
                              of_which_order_variants=[len(ovars), len(rnd_ovars)],
-                             order_variants_by_kind_verbosity_order=_count_by(ovars + rnd_ovars, lambda c: '%s/%s/%s' % (c['kind'], c['verb'], c['ord'])),
+                             order_variants_by_kind_and_order=_count_by(ovars + rnd_ovars, lambda c: '%s/%s' % (c['kind'], c['ord'])),
+                             order_variants_distinct_kind_verbosity_representer_order=len(set((c['kind'], c['verb'], c['rep'], c['ord']) for c in ovars + rnd_ovars)),
                              statistics_variants_by_dimension={d: sum(1 for c in cases if c['kind'].startswith('stats') and d in _lay_suffix(c).split('/'))
                                                                for d in ('repeated-names', 'same-name-other-test', 'one-task', 'zero-rows', 'two-labels', 'partial-labels')},
                              layout_variants_by_layout={l: sum(1 for c in lays + rnd_lays if c['lay'] == l)
